@@ -19,6 +19,17 @@ CHECKS = {
         note=("Trusted: pyvc encoding of Python (A-BUILTINS, A-LOOKUP), z3/cvc5, A-KEY/A-EQ/A-ITER (pure stable key function, "
               "lawful __eq__/__hash__), check_type as the uninterpreted relation proved under C15; bounded stand-in for "
               "generator mixins; replay search is bounded (lists <= 3 items).")),
+    "C14": dict(
+        category="proof", design_ref="DESIGN.md section 8 (C14)",
+        text=("KeyedSet.add/discard/__contains__/__getitem__/get/__len__/__eq__/__init__ and the inherited MutableSet "
+              "remove/pop/clear/|=/-= are symbolically executed from the current source against contracts over the abstract "
+              "map key -> item (item-or-key resolution, most-recently-added wins, enforce_item_equivalence, typed containers); "
+              "the representation invariant is a pre/postcondition of every operation on normal and exceptional exits, all "
+              "obligations discharged by z3/cvc5 for all inputs and iterations. The Set-mixin binary operators and "
+              "comparisons (generator expressions, cardinality short-cut) rest on a labelled bounded stand-in; one open known "
+              "finding (built-in set operands) is reported as KNOWN-FINDING."),
+        note=("Trusted: pyvc encoding of Python, z3/cvc5, A-KEY/A-EQ/A-ITER, check_type as the relation proved under C15; "
+              "bounded stand-in for |,&,-,^,<=,<,>=,>,isdisjoint,&=,^= (sets <= 2-3 items, 5 universes).")),
 }
 
 NA = {
